@@ -28,7 +28,9 @@ CHECK = {
             "harness": ["tracer/c14_test.go"],
             "test": "^TestVerifC14$",
             "shards": {"quick": 16, "thorough": 16},
-            "budget_s": {"quick": 60, "thorough": 600},
+            # measured: 41.0M cases quick ~ 10 CPU-min, 311M cases thorough ~ 80 CPU-min (under contention); on 16 idle
+            # cores about 35 s / 5 min. The soft budgets leave room for a loaded machine (exhaustive:false, exit 0 if hit).
+            "budget_s": {"quick": 120, "thorough": 1200},
             # allocation-heavy, tiny live heap: fewer GC cycles (performance only)
             "env": {"GOGC": "800"},
         },
